@@ -102,8 +102,24 @@ def isCallsite (line : String) : Bool :=
   | ["callsite", w] => w == "signing" || w == "dkg"
   | _ => false
 
+/-- `sessions <m1,m2,..> <attempts>`: the signing retry loop run for real for every message -/
+def parseSessions (line : String) : Option (List Nat × Nat) :=
+  match splitWs line with
+  | ["sessions", ms, k] => do
+    let ms ← parseNats ms
+    let k ← k.toNat?
+    if ms.isEmpty || ms.length > 4 || ms.any (· == 0) || ms.any (· ≥ 2^63) || k < 1 || k > 5 then none
+    else some (ms, k)
+  | _ => none
+
+def nodupStrings : List String → Bool
+  | [] => true
+  | x :: xs => !xs.contains x && nodupStrings xs
+
 def model (line : String) : String :=
   if isCallsite line then "session-per-attempt" else
+  if let some (ms, k) := parseSessions line then
+    showList (ms.flatMap fun m => (List.range k).map fun a => sessionId m (a + 1)) else
   match parseCase line with
   | none => "bad-op"
   | some c =>
@@ -121,6 +137,12 @@ def model (line : String) : String :=
         else showList ((run id s c.ctx c.msgs).map showOutcome)
 
 def monitor (op obs : String) : String :=
+  if let some (ms, k) := parseSessions op then
+    -- model-independent: one session id per (message, attempt), pairwise distinct
+    let ids := splitList obs
+    (if ids.length == ms.length * k && nodupStrings ids && !obs.startsWith "err" then "ok"
+     else "FAIL attempts-share-one-session-id")
+  else
   if isCallsite op then
     (if obs == "session-per-attempt" then "ok" else "FAIL attempts-share-one-session-id")
   else
